@@ -486,7 +486,7 @@ Hypothesis Hstr : forall s, P (VStr s).
 Hypothesis Hsym : forall n, P (VSym n).
 Hypothesis Hpair : forall h t, P h -> P t -> P (VPair h t).
 Hypothesis Harr : forall l, Forall P l -> P (VArr l).
-Hypothesis Hhash : forall kvs, P (VHash kvs).
+Hypothesis Hhash : forall kvs, Forall (fun kv => P (fst kv) /\ P (snd kv)) kvs -> P (VHash kvs).
 
 Fixpoint value_ind2 (v : value) : P v :=
   match v with
@@ -495,7 +495,11 @@ Fixpoint value_ind2 (v : value) : P v :=
   | VPair h t => Hpair h t (value_ind2 h) (value_ind2 t)
   | VArr l => Harr l ((fix go (l : list value) : Forall P l :=
                          match l with [] => Forall_nil P | x :: r => Forall_cons x (value_ind2 x) (go r) end) l)
-  | VHash kvs => Hhash kvs
+  | VHash kvs => Hhash kvs ((fix go (l : list (value * value)) : Forall (fun kv => P (fst kv) /\ P (snd kv)) l :=
+                               match l with
+                               | [] => Forall_nil _
+                               | (k, x) :: r => Forall_cons (k, x) (conj (value_ind2 k) (value_ind2 x)) (go r)
+                               end) kvs)
   end.
 End ValueInd.
 
@@ -508,7 +512,10 @@ Lemma can_start_0 : can_start 0. Proof. reflexivity. Qed.
 Lemma delim_32 : delim 32. Proof. left; reflexivity. Qed.
 Lemma delim_10 : delim 10. Proof. right; left; reflexivity. Qed.
 Lemma delim_41 : delim 41. Proof. right; right; left; reflexivity. Qed.
-Lemma delim_93 : delim 93. Proof. right; right; right; reflexivity. Qed.
+Lemma delim_93 : delim 93. Proof. right; right; right; left; reflexivity. Qed.
+Lemma delim_125 : delim 125. Proof. right; right; right; right; reflexivity. Qed.
+Lemma can_start_123 : can_start 123. Proof. reflexivity. Qed.
+Lemma can_start_58 : can_start 58. Proof. reflexivity. Qed.
 
 Lemma seq_space : forall a tks x y, lexes_to a tks -> lexes_to x y -> lexes_to (a ++ 32 :: x) (tks ++ y).
 Proof.
@@ -579,6 +586,92 @@ Proof.
   - destruct H as [H _]. apply float_fin_lexes; exact H.
 Qed.
 
+(* ---- hashes: { k:v "s":v ... } ---- *)
+
+Lemma step_open_curly : forall s t p, view s LNormal [] t p ->
+  exists s1, lex_rune s 123 = LOk s1 /\ view s1 LNormal [] (t ++ [mkTok TLCurly []]) 123.
+Proof.
+  intros s t p V. rewrite lex_rune_normal by apply V.
+  apply (push_view _ _ _ _ _ 123) in V. apply pview_view in V. set (s1 := ring_push 123 s) in *. clearbody s1.
+  unfold lex_normal; cbn [Z.eqb Pos.eqb orb andb]; unfold with_dump, dump_buffer;
+    rewrite (v_buf _ _ _ _ _ V); (eexists; split; [reflexivity|]); apply view_append_token; assumption.
+Qed.
+
+Lemma open_curly : forall a tks, lexes_to a tks -> lexes_to (123 :: a) (mkTok TLCurly [] :: tks).
+Proof.
+  intros a tks Ha s t p d Hd Hcan V.
+  destruct (step_open_curly s t p V) as [s1 [E1 V1]].
+  destruct (Ha s1 _ 123 d Hd can_start_123 V1) as [s2 [E2 V2]].
+  exists s2. split; [cbn [app lex_all]; rewrite E1; exact E2|rewrite <- !app_assoc in V2; exact V2].
+Qed.
+
+Lemma close_curly : forall a tks, lexes_to a tks -> lexes_to (a ++ [125]) (tks ++ [mkTok TRCurly []]).
+Proof.
+  intros a tks Ha s t p d Hd Hcan V.
+  destruct (Ha s t p 125 delim_125 Hcan V) as [s1 [E1 V1]].
+  destruct (step_delim0 s1 _ 125 d Hd V1) as [s2 [E2 V2]].
+  exists s2. split.
+  - rewrite lex_all_app, E1. cbn [lex_all]. rewrite E2. reflexivity.
+  - rewrite <- !app_assoc in V2. rewrite <- !app_assoc. exact V2.
+Qed.
+
+Lemma empty_hash_body_lexes : lexes_to [125] [mkTok TRCurly []].
+Proof.
+  intros s t p d Hd Hcan V.
+  destruct (step_delim0 s t p 125 delim_125 V) as [s1 [E1 V1]].
+  destruct (step_delim0 s1 _ 125 d Hd V1) as [s2 [E2 V2]].
+  exists s2. split; [cbn [app lex_all]; rewrite E1, E2; reflexivity|]. rewrite <- app_assoc in V2. exact V2.
+Qed.
+
+(* symbol keys: names that are not slice bounds and that DecodeAtom, with the colon, takes for a key symbol *)
+Definition symkey_ok (n : list Z) : Prop :=
+  n <> [] /\ Forall plain n /\ slice_bound n = false /\ decode_atom (n ++ [58]) = Some (mkTok TSymbolColon n).
+
+Definition starts_ok (x : list Z) : Prop := exists r rest, x = r :: rest /\ r <> 61.
+
+Lemma after_colon : forall s b t tok x tx d, view s LFreshAssignOrColon b t 58 -> slice_bound b = false ->
+  decode_atom (b ++ [58]) = Some tok -> starts_ok x -> lexes_to x tx -> delim d ->
+  exists s', lex_all s (x ++ [d]) = LOk s' /\ view s' LNormal [] (t ++ tok :: tx ++ dtok d) d.
+Proof.
+  intros s b t tok x tx d V Hsb Hdec [r [rest [Ex Hr]]] Hx Hd. subst x.
+  destruct (colon_then s b t r tok V Hr Hsb Hdec) as [s' [V' El]].
+  destruct (Hx s' _ 58 d Hd can_start_58 V') as [s2 [E2 V2]].
+  exists s2. split.
+  - cbn [app lex_all] in *. rewrite El. exact E2.
+  - rewrite <- !app_assoc in V2. exact V2.
+Qed.
+
+Lemma symkey_lexes : forall n x tx, symkey_ok n -> starts_ok x -> lexes_to x tx ->
+  lexes_to (n ++ 58 :: x) (mkTok TSymbolColon n :: tx).
+Proof.
+  intros n x tx [Hne [Hp [Hsb Hdec]]] Hst Hx s t p d Hd Hcan V.
+  destruct (run_plain n s [] t p Hp V) as [s1 [E1 V1]]. cbn [app] in V1.
+  destruct (step_colon s1 n t _ V1) as [s2 [E2 V2]].
+  destruct (after_colon s2 n t _ x tx d V2 Hsb Hdec Hst Hx Hd) as [s3 [E3 V3]].
+  exists s3. split; [|exact V3].
+  replace ((n ++ 58 :: x) ++ [d]) with (n ++ 58 :: (x ++ [d])) by (rewrite <- app_assoc; reflexivity).
+  rewrite lex_all_app, E1. cbn [lex_all]. rewrite E2. exact E3.
+Qed.
+
+Lemma strkey_lexes : forall is_print its x tx, Forall (item_ok is_print) its -> starts_ok x -> lexes_to x tx ->
+  lexes_to (quote_str is_print its ++ 58 :: x)
+           (mkTok TString (map item_rune its) :: mkTok TColonOperator [58] :: tx).
+Proof.
+  intros ip its x tx F Hst Hx s t p d Hd Hcan V. unfold quote_str.
+  destruct (step_str_open s t p V) as [s1 [E1 V1]].
+  destruct (items_in_str ip its s1 [] t 34 F V1) as [s2 [q [E2 V2]]].
+  destruct (step_str_close s2 _ t q V2) as [s3 [E3 V3]].
+  destruct (step_colon s3 [] _ _ V3) as [s4 [E4 V4]].
+  assert (slice_bound [] = false) as Hsb by reflexivity.
+  assert (decode_atom ([] ++ [58]) = Some (mkTok TColonOperator [58])) as Hdec by (vm_compute; reflexivity).
+  destruct (after_colon s4 [] _ _ x tx d V4 Hsb Hdec Hst Hx Hd) as [s5 [E5 V5]].
+  exists s5. split.
+  - replace ((34 :: flat_map (quote_item ip 34) its ++ [34]) ++ 58 :: x) with
+      (34 :: (flat_map (quote_item ip 34) its ++ (34 :: 58 :: x))) by (cbn [app]; rewrite <- app_assoc; reflexivity).
+    cbn [app lex_all]. rewrite E1. rewrite <- app_assoc. rewrite lex_all_app, E2. cbn [app lex_all]. rewrite E3, E4. exact E5.
+  - rewrite <- !app_assoc in V5. cbn [app] in V5. exact V5.
+Qed.
+
 Section Data.
 Variable is_print : Z -> bool.
 
@@ -597,7 +690,14 @@ Fixpoint dat (tail : bool) (v : value) : Prop :=
     | VSym n => sym_ok n
     | VPair h t => dat false h /\ dat true t
     | VArr l => (fix all (l : list value) : Prop := match l with [] => True | x :: r => dat false x /\ all r end) l
-    | VHash _ => False
+    | VHash kvs =>
+        (fix allp (l : list (value * value)) : Prop :=
+           match l with
+           | [] => True
+           | (k, x) :: r =>
+               (match k with VSym n => symkey_ok n | VStr s => Forall (item_ok is_print) s | _ => False end) /\
+               dat false x /\ (match x with VSym n => list_eqb n str_for = false | _ => True end) /\ allp r
+           end) kvs
     end in
   if tail then match v with VNil => True | VPair h t => dat false h /\ dat true t | _ => body end else body.
 
@@ -621,7 +721,18 @@ Fixpoint tk (tail : bool) (v : value) : list token :=
     | VArr l => mkTok TLSquare [] ::
                 (fix el (l : list value) : list token := match l with [] => [] | x :: r => tk false x ++ el r end) l
                 ++ [mkTok TRSquare []]
-    | VHash _ => []
+    | VHash kvs =>
+        mkTok TLCurly [] ::
+        (fix ptoks (l : list (value * value)) : list token :=
+           match l with
+           | [] => []
+           | (k, x) :: r =>
+               (match k with
+                | VSym n => [mkTok TSymbolColon n]
+                | VStr s => [mkTok TString (map item_rune s); mkTok TColonOperator [58]]
+                | _ => []
+                end) ++ tk false x ++ ptoks r
+           end) kvs ++ [mkTok TRCurly []]
     end in
   if tail then
     match v with
@@ -647,6 +758,34 @@ Qed.
 Ltac atom_claim L :=
   split; [intros D; cbn [dat] in D; cbn [pr tk]; apply L; exact D
          |intros D a tks Ha; cbn [dat] in D; cbn [pr tk]; apply dotted_tail; [apply L; exact D|exact Ha]].
+
+Lemma digit_ne61 : forall c, digit c -> c <> 61. Proof. unfold digit; intros; lia. Qed.
+
+Lemma pr_first : forall v, dat false v -> starts_ok (pr is_print false v).
+Proof.
+  intros v D. unfold starts_ok. destruct v; cbn [pr]; cbn [dat] in D.
+  - unfold itoa. destruct (Z.ltb_spec z 0); [eexists; eexists; split; [reflexivity|discriminate]|].
+    destruct (dec_cons z ltac:(lia)) as [c [ds [E [Hc _]]]]. rewrite E. eexists; eexists; split; [reflexivity|apply digit_ne61; assumption].
+  - unfold utoa. destruct (dec_cons z ltac:(lia)) as [c [ds [E [Hc _]]]]. rewrite E. cbn [app].
+    eexists; eexists; split; [reflexivity|apply digit_ne61; assumption].
+  - destruct c as [|neg|t].
+    + eexists; eexists; split; [reflexivity|discriminate].
+    + cbn [float_text]. destruct neg; eexists; eexists; split; try reflexivity; discriminate.
+    + destruct D as [Ht _]. destruct (float_text_head t sci Ht) as [h [r [Eh Hh]]]. rewrite Eh.
+      eexists; eexists; split; [reflexivity|]. destruct Hh as [Hh|Hh]; [subst; discriminate|apply digit_ne61; assumption].
+  - destruct b; eexists; eexists; split; try reflexivity; discriminate.
+  - eexists; eexists; split; [reflexivity|discriminate].
+  - unfold quote_rune. eexists; eexists; split; [reflexivity|discriminate].
+  - unfold quote_str. eexists; eexists; split; [reflexivity|discriminate].
+  - destruct D as [Hne [Hp _]]. destruct name as [|c n']; [congruence|]. inversion Hp; subst.
+    eexists; eexists; split; [reflexivity|]. apply plain_neq in H1. lia.
+  - eexists; eexists; split; [reflexivity|discriminate].
+  - eexists; eexists; split; [reflexivity|discriminate].
+  - eexists; eexists; split; [reflexivity|discriminate].
+Qed.
+
+Lemma starts_ok_app : forall x y, starts_ok x -> starts_ok (x ++ y).
+Proof. intros x y [r [rest [E H]]]. subst. exists r, (rest ++ y). split; [reflexivity|exact H]. Qed.
 
 Lemma lex_claim_all : forall v, lex_claim v.
 Proof.
@@ -678,7 +817,55 @@ Proof.
         + rewrite <- app_assoc. apply seq_space; [apply Hx; exact Dx|]. apply IH; exact Dr. }
     split; [exact Hp|].
     intros D a tks Ha. apply dotted_tail; [apply Hp; exact D|exact Ha].
-  - intros kvs. split; [intros []|intros []].
+  - intros kvs F.
+    assert ((fix allp (l : list (value * value)) : Prop :=
+               match l with
+               | [] => True
+               | (k, x) :: r =>
+                   (match k with VSym n => symkey_ok n | VStr s => Forall (item_ok is_print) s | _ => False end) /\
+                   dat false x /\ (match x with VSym n => list_eqb n str_for = false | _ => True end) /\ allp r
+               end) kvs ->
+            lexes_to (pr is_print false (VHash kvs)) (tk false (VHash kvs))) as Hp.
+    { intros D. cbn [pr tk]. apply open_curly.
+      induction F as [|[k x] r [_ [Hx _]] F IH].
+      - exact empty_hash_body_lexes.
+      - destruct D as [Dk [Dx [_ Dr]]]. specialize (IH Dr).
+        set (X := pr is_print false x ++ match r with [] => [125] | _ :: _ => 32 :: (fix pairs (l : list (value * value)) : list Z :=
+                  match l with
+                  | [] => [125]
+                  | (k0, x0) :: r0 =>
+                      (match k0 with
+                       | VStr s => quote_str is_print s ++ [58]
+                       | VSym n => n ++ [58]
+                       | _ => pr is_print false k0 ++ [58]
+                       end) ++ pr is_print false x0 ++ (match r0 with [] => [125] | _ => 32 :: pairs r0 end)
+                  end) r end).
+        set (TX := tk false x ++ (fix ptoks (l : list (value * value)) : list token :=
+                   match l with
+                   | [] => []
+                   | (k0, x0) :: r0 =>
+                       (match k0 with
+                        | VSym n => [mkTok TSymbolColon n]
+                        | VStr s => [mkTok TString (map item_rune s); mkTok TColonOperator [58]]
+                        | _ => []
+                        end) ++ tk false x0 ++ ptoks r0
+                   end) r ++ [mkTok TRCurly []]).
+        assert (lexes_to X TX) as HX.
+        { unfold X, TX. destruct r as [|kv r'].
+          - cbn [app]. apply close_curly. apply Hx; exact Dx.
+          - apply seq_space; [apply Hx; exact Dx|exact IH]. }
+        assert (starts_ok X) as HS by (unfold X; apply starts_ok_app; apply pr_first; exact Dx).
+        destruct k; try contradiction.
+        + replace ((quote_str is_print s ++ [58]) ++ X) with (quote_str is_print s ++ 58 :: X) by (rewrite <- app_assoc; reflexivity).
+          replace (([mkTok TString (map item_rune s); mkTok TColonOperator [58]] ++ tk false x ++ _) ++ [mkTok TRCurly []])
+            with (mkTok TString (map item_rune s) :: mkTok TColonOperator [58] :: TX) by (unfold TX; cbn [app]; rewrite <- !app_assoc; reflexivity).
+          apply strkey_lexes; assumption.
+        + replace ((name ++ [58]) ++ X) with (name ++ 58 :: X) by (rewrite <- app_assoc; reflexivity).
+          replace (([mkTok TSymbolColon name] ++ tk false x ++ _) ++ [mkTok TRCurly []])
+            with (mkTok TSymbolColon name :: TX) by (unfold TX; cbn [app]; rewrite <- !app_assoc; reflexivity).
+          apply symkey_lexes; assumption. }
+    split; [exact Hp|].
+    intros D a tks Ha. apply dotted_tail; [apply Hp; exact D|exact Ha].
 Qed.
 
 Theorem data_lexes : forall v, dat false v -> lexes_to (print is_print v) (tk false v).
@@ -692,6 +879,8 @@ Fixpoint vsize (v : value) : nat :=
   match v with
   | VPair h t => S (vsize h + vsize t)
   | VArr l => S (S ((fix sum (l : list value) : nat := match l with [] => O | x :: r => (vsize x + sum r)%nat end) l))
+  | VHash kvs => S (S (S (S ((fix hs (l : list (value * value)) : nat :=
+                               match l with [] => O | (_, x) :: r => (vsize x + 4 + hs r)%nat end) kvs))))
   | _ => 1%nat
   end.
 
@@ -700,7 +889,7 @@ Proof. destruct v; simpl; lia. Qed.
 
 Definition value_start (t : token) : Prop :=
   match t_kind t with
-  | TDecimal | TUint64 | TBool | TSymbol | TChar | TString | TLParen | TLSquare | TFloat => True
+  | TDecimal | TUint64 | TBool | TSymbol | TChar | TString | TLParen | TLSquare | TFloat | TLCurly => True
   | _ => False
   end.
 
@@ -787,10 +976,86 @@ Proof.
     rewrite En, Hok, (float_text_sci t sci Ht). reflexivity.
 Qed.
 
+Lemma pexpr_lcurly : forall f acc top l e i k,
+  pexpr true false (S f) acc top (mq (mkTok TLCurly [] :: l) e i) k =
+  need acc 0 (mq l e i) (fun q2 =>
+    curly_skip f acc q2 (tok_at q2 0) 1 (fun q3 tok2 extra =>
+      let as_hash q := plist true false f acc (q_push hash_tok q) TRCurly k in
+      let as_infix q := pinfix true false f acc q [] k in
+      match t_kind tok2 with
+      | TSymbolColon =>
+          need acc extra q3 (fun q4 => idx q4 extra (fun second =>
+            if kind_is second TSymbol && list_eqb (t_str second) str_for then as_infix q4 else as_hash q4))
+      | TRCurly => k SHashEmpty (q_tail q3)
+      | TString =>
+          need acc extra q3 (fun q4 => idx q4 extra (fun second =>
+            if kind_is second TColonOperator then as_hash q4 else as_infix q4))
+      | TBeginBacktickString =>
+          need acc (extra + 1) q3 (fun q4 => idx q4 extra (fun second => idx q4 (extra + 1) (fun third =>
+            if kind_is second TBacktickString && kind_is third TColonOperator then as_hash q4 else as_infix q4)))
+      | _ => as_infix q3
+      end)).
+Proof. reflexivity. Qed.
+
+Lemma pexpr_lcurly_sym : forall f acc top n t0 l e i k,
+  (kind_is t0 TSymbol && list_eqb (t_str t0) str_for) = false ->
+  pexpr true false (S (S f)) acc top (mq (mkTok TLCurly [] :: mkTok TSymbolColon n :: t0 :: l) e i) k =
+  plist true false (S f) acc (mq (hash_tok :: mkTok TSymbolColon n :: t0 :: l) e i) TRCurly k.
+Proof.
+  intros. rewrite pexpr_lcurly. Opaque plist pinfix. unfold need; simpl; unfold need, idx; simpl. Transparent plist pinfix.
+  match goal with |- context [if ?c then _ else _] => change c with (kind_is t0 TSymbol && list_eqb (t_str t0) str_for); rewrite H end. reflexivity.
+Qed.
+
+Lemma pexpr_lcurly_str : forall f acc top s l e i k,
+  pexpr true false (S (S f)) acc top (mq (mkTok TLCurly [] :: mkTok TString s :: mkTok TColonOperator [58] :: l) e i) k =
+  plist true false (S f) acc (mq (hash_tok :: mkTok TString s :: mkTok TColonOperator [58] :: l) e i) TRCurly k.
+Proof.
+  intros. rewrite pexpr_lcurly. Opaque plist pinfix. unfold need; simpl; unfold need, idx; simpl. Transparent plist pinfix. reflexivity.
+Qed.
+
+Lemma pexpr_lcurly_empty : forall f acc top l e i k,
+  pexpr true false (S (S f)) acc top (mq (mkTok TLCurly [] :: mkTok TRCurly [] :: l) e i) k = k SHashEmpty (mq l e i).
+Proof.
+  intros. rewrite pexpr_lcurly. Opaque plist pinfix. unfold need; simpl; unfold need, idx; simpl. Transparent plist pinfix. reflexivity.
+Qed.
+
 Lemma kind_is_start : forall t k, value_start t -> (k = TRParen \/ k = TBackslash \/ k = TComma \/ k = TRSquare) -> kind_is t k = false.
 Proof.
   intros t k H Hk. unfold kind_is, value_start in *. destruct (t_kind t); try contradiction;
     destruct Hk as [Hk|[Hk|[Hk|Hk]]]; subst k; reflexivity.
+Qed.
+
+Lemma kind_is_start_curly : forall t, value_start t -> kind_is t TRCurly = false.
+Proof. intros t H. unfold kind_is, value_start in *. destruct (t_kind t); try contradiction; reflexivity. Qed.
+
+(* ---- a flat list of items up to the closing curly: what ParseList does with the body of (hash ...) ---- *)
+Fixpoint sexp_list (l : list sexp) : sexp := match l with [] => SNull | x :: r => SPair x (sexp_list r) end.
+
+Definition pitem_ok (N : nat) (it : list token * sexp) : Prop :=
+  (exists t0 l, fst it = t0 :: l /\ kind_is t0 TRCurly = false /\ kind_is t0 TBackslash = false) /\
+  forall f acc rest e i k, (N <= f)%nat ->
+    pexpr true false f acc false (mq (fst it ++ rest) e i) k = k (snd it) (mq rest e i).
+
+Lemma plist_items : forall N items f acc rest e i k, Forall (pitem_ok N) items -> (N + length items + 1 <= f)%nat ->
+  plist true false f acc (mq (concat (map fst items) ++ mkTok TRCurly [] :: rest) e i) TRCurly k =
+  k (sexp_list (map snd items)) (mq rest e i).
+Proof.
+  intros N items. induction items as [|it items IH]; intros f acc rest e i k F Hf.
+  - destruct f as [|f]; [simpl in Hf; lia|]. cbn [map concat app plist]. rewrite need0_cons.
+    cbn [tok_at nth q_toks]. change (kind_is (mkTok TRCurly []) TRCurly) with true. cbv iota. reflexivity.
+  - inversion F as [|x l [[t0 [l0 [E0 [K1 K2]]]] Hp] F']; subst.
+    destruct f as [|f]; [simpl in Hf; lia|]. cbn [map concat]. rewrite <- app_assoc.
+    cbn [plist]. rewrite E0. rewrite <- app_comm_cons. rewrite need0_cons. cbn [tok_at nth q_toks]. rewrite K1.
+    rewrite app_comm_cons, <- E0.
+    rewrite (Hp f acc _ e i) by (simpl in Hf; lia).
+    assert (exists t1 l1, concat (map fst items) ++ mkTok TRCurly [] :: rest = t1 :: l1 /\ kind_is t1 TBackslash = false) as [t1 [l1 [E1 K3]]].
+    { destruct items as [|it2 items'].
+      - cbn [map concat app]. eexists; eexists; split; [reflexivity|reflexivity].
+      - inversion F' as [|x2 l2 [[t2 [l2' [E2 [_ K4]]]] _] _]; subst. cbn [map concat]. rewrite E2.
+        cbn [app]. eexists; eexists; split; [reflexivity|exact K4]. }
+    rewrite E1. rewrite look_cons. cbn [tok_at nth q_toks]. rewrite K3. rewrite <- E1.
+    cbn [map sexp_list].
+    apply (IH f acc rest e i (fun tl q' => k (SPair (snd it) tl) q') F'). simpl in Hf. simpl. lia.
 Qed.
 
 Lemma PL_step : forall h t, dat false h -> E h ->
@@ -813,6 +1078,156 @@ Proof.
   pose proof (vsize_pos t).
   rewrite (Eh Dh f acc false (tk true t ++ rest) e i) by lia.
   rewrite Ht. idtac. rewrite look_cons. cbn [tok_at nth q_toks q_tail tl q_err q_instr]. reflexivity.
+Qed.
+
+(* the items of the body of a printed hash *)
+Fixpoint pair_items (kvs : list (value * value)) : list (list token * sexp) :=
+  match kvs with
+  | [] => []
+  | (k, x) :: r =>
+      (match k with
+       | VSym n => [([mkTok TSymbolColon n], SSym true false n)]
+       | VStr s => [([mkTok TString (map item_rune s)], SStr false (map item_rune s)); ([mkTok TColonOperator [58]], sym [58])]
+       | _ => []
+       end) ++ (tk false x, to_sexp x) :: pair_items r
+  end.
+
+Definition allp (kvs : list (value * value)) : Prop :=
+  (fix allp (l : list (value * value)) : Prop :=
+     match l with
+     | [] => True
+     | (k, x) :: r =>
+         (match k with VSym n => symkey_ok n | VStr s => Forall (item_ok is_print) s | _ => False end) /\
+         dat false x /\ (match x with VSym n => list_eqb n str_for = false | _ => True end) /\ allp r
+     end) kvs.
+
+Definition vsum (kvs : list (value * value)) : nat :=
+  (fix hs (l : list (value * value)) : nat := match l with [] => O | (_, x) :: r => (vsize x + 4 + hs r)%nat end) kvs.
+
+Definition vs2 (kvs : list (value * value)) : nat :=
+  (fix hs (l : list (value * value)) : nat := match l with [] => O | (_, x) :: r => (vsize x + hs r)%nat end) kvs.
+
+Lemma vsum_vs2 : forall kvs, vsum kvs = (vs2 kvs + 4 * length kvs)%nat.
+Proof. induction kvs as [|[k x] r IH]; [reflexivity|]. unfold vsum, vs2 in *. cbn [length]. lia. Qed.
+
+Lemma pair_items_toks : forall kvs, allp kvs ->
+  (fix ptoks (l : list (value * value)) : list token :=
+     match l with
+     | [] => []
+     | (k, x) :: r =>
+         (match k with
+          | VSym n => [mkTok TSymbolColon n]
+          | VStr s => [mkTok TString (map item_rune s); mkTok TColonOperator [58]]
+          | _ => []
+          end) ++ tk false x ++ ptoks r
+     end) kvs = concat (map fst (pair_items kvs)).
+Proof.
+  induction kvs as [|[k x] r IH]; intros D; [reflexivity|]. destruct D as [Dk [Dx [_ Dr]]].
+  cbn [pair_items]. rewrite map_app, concat_app. cbn [map concat fst]. rewrite <- (IH Dr).
+  destruct k; try contradiction; reflexivity.
+Qed.
+
+Lemma pair_items_sexp : forall kvs, allp kvs ->
+  (fix items (l : list (value * value)) : sexp :=
+     match l with
+     | [] => SNull
+     | (k, x) :: r =>
+         match k with
+         | VSym n => SPair (SSym true false n) (SPair (to_sexp x) (items r))
+         | VStr s => SPair (SStr false (map item_rune s)) (SPair (sym [58]) (SPair (to_sexp x) (items r)))
+         | _ => SPair (to_sexp k) (SPair (sym [58]) (SPair (to_sexp x) (items r)))
+         end
+     end) kvs = sexp_list (map snd (pair_items kvs)).
+Proof.
+  induction kvs as [|[k x] r IH]; intros D; [reflexivity|]. destruct D as [Dk [Dx [_ Dr]]].
+  cbn [pair_items]. rewrite map_app. rewrite <- (IH Dr) || idtac.
+  destruct k; try contradiction; cbn [map app snd sexp_list]; rewrite <- (IH Dr); reflexivity.
+Qed.
+
+Lemma one_tok_item : forall N t e, (1 <= N)%nat -> kind_is t TRCurly = false -> kind_is t TBackslash = false ->
+  (forall f acc rest e' i k, pexpr true false (S f) acc false (mq (t :: rest) e' i) k = k e (mq rest e' i)) ->
+  pitem_ok N ([t], e).
+Proof.
+  intros N t e HN K1 K2 H. split; [exists t, []; auto|].
+  intros f acc rest e' i k Hf. destruct f as [|f]; [lia|]. apply H.
+Qed.
+
+Lemma pair_items_ok : forall kvs, allp kvs -> Forall (fun kv => E (snd kv)) kvs ->
+  forall N, (vs2 kvs <= N)%nat -> (1 <= N)%nat -> Forall (pitem_ok N) (pair_items kvs).
+Proof.
+  induction kvs as [|[k x] r IH]; intros D FE N HN H1; [constructor|].
+  destruct D as [Dk [Dx [_ Dr]]]. inversion FE as [|kv l Ex FE']; subst. cbn [snd] in Ex.
+  cbn [pair_items]. apply Forall_app. split.
+  - destruct k; try contradiction.
+    + constructor; [|constructor; [|constructor]].
+      * apply one_tok_item; auto; intros; cbn [pexpr]; rewrite look_cons; reflexivity.
+      * apply one_tok_item; auto; intros; cbn [pexpr]; rewrite look_cons; reflexivity.
+    + constructor; [|constructor]. apply one_tok_item; auto; intros; cbn [pexpr]; rewrite look_cons; reflexivity.
+  - constructor.
+    + split.
+      * destruct (tk_first x Dx) as [t0 [l0 [E0 S0]]]. exists t0, l0. cbn [fst]. split; [exact E0|].
+        split; [apply kind_is_start_curly; exact S0|apply kind_is_start; auto].
+      * intros f acc rest e i k' Hf. cbn [fst snd]. apply (Ex Dx). unfold vs2 in HN. lia.
+    + apply IH; auto. unfold vs2 in *. lia.
+Qed.
+
+Lemma pair_items_len : forall kvs, (length (pair_items kvs) <= 3 * length kvs)%nat.
+Proof.
+  induction kvs as [|[k x] r IH]; [simpl; lia|]. cbn [pair_items]. rewrite app_length. cbn [length].
+  destruct k; cbn [length]; lia.
+Qed.
+
+Lemma vsum_len : forall kvs, (4 * length kvs <= vsum kvs)%nat.
+Proof. induction kvs as [|[k x] r IH]; [simpl; lia|]. unfold vsum in *. cbn [length]. lia. Qed.
+
+Lemma first_not_for : forall x, dat false x -> (match x with VSym n => list_eqb n str_for = false | _ => True end) ->
+  forall t0 l0, tk false x = t0 :: l0 -> (kind_is t0 TSymbol && list_eqb (t_str t0) str_for) = false.
+Proof.
+  intros x D Hfor t0 l0 E0. destruct x; cbn [tk] in E0; try (inversion E0; subst; reflexivity).
+  - destruct c; inversion E0; subst; try reflexivity. destruct neg; reflexivity.
+  - inversion E0; subst. cbn [t_kind t_str kind_is tkind_eqb andb]. exact Hfor.
+Qed.
+
+Lemma norm_l : forall (c x : token) A Z rest, (c :: (A ++ Z) ++ [x]) ++ rest = c :: A ++ (Z ++ x :: rest).
+Proof. intros. cbn [app]. rewrite <- !app_assoc. reflexivity. Qed.
+Lemma norm_r : forall (c x : token) A Z rest, c :: (A ++ Z) ++ x :: rest = c :: A ++ (Z ++ x :: rest).
+Proof. intros. rewrite <- !app_assoc. reflexivity. Qed.
+
+Lemma E_hash : forall kvs, Forall (fun kv => E (snd kv)) kvs -> E (VHash kvs).
+Proof.
+  intros kvs FE D f acc top rest e i k Hf. change (dat false (VHash kvs)) with (allp kvs) in D.
+  destruct kvs as [|[k0 x0] r].
+  - destruct f as [|[|f]]; try (simpl in Hf; lia). cbn [tk app to_sexp]. apply pexpr_lcurly_empty.
+  - assert (vsum ((k0, x0) :: r) + 4 <= f)%nat as Hf' by (simpl in Hf; unfold vsum; lia).
+    pose proof (vsize_pos x0) as Hx0.
+    assert (1 <= vs2 ((k0, x0) :: r))%nat as H1 by (unfold vs2; lia).
+    destruct f as [|[|f]]; try lia.
+    pose proof (pair_items_ok _ D FE (vs2 ((k0, x0) :: r)) (le_n _) H1) as Fit.
+    assert (pitem_ok (vs2 ((k0, x0) :: r)) ([hash_tok], sym str_hash)) as Hh.
+    { apply one_tok_item; auto; intros; cbn [pexpr]; rewrite look_cons; reflexivity. }
+    pose proof (plist_items _ (([hash_tok], sym str_hash) :: pair_items ((k0, x0) :: r)) (S f) acc rest e i k
+                  (Forall_cons _ Hh Fit)) as HP.
+    cbn [map concat fst snd sexp_list app] in HP.
+    rewrite <- (pair_items_toks _ D) in HP. rewrite <- (pair_items_sexp _ D) in HP.
+    assert (to_sexp (VHash ((k0, x0) :: r)) = SPair (sym str_hash)
+             ((fix items (l : list (value * value)) : sexp :=
+                 match l with
+                 | [] => SNull
+                 | (k, x) :: r =>
+                     match k with
+                     | VSym n => SPair (SSym true false n) (SPair (to_sexp x) (items r))
+                     | VStr s => SPair (SStr false (map item_rune s)) (SPair (sym [58]) (SPair (to_sexp x) (items r)))
+                     | _ => SPair (to_sexp k) (SPair (sym [58]) (SPair (to_sexp x) (items r)))
+                     end
+                 end) ((k0, x0) :: r))) as Ets by reflexivity.
+    rewrite Ets. rewrite <- HP.
+    2:{ cbn [length]. pose proof (pair_items_len ((k0, x0) :: r)). pose proof (vsum_vs2 ((k0, x0) :: r)). lia. }
+    clear HP Ets. destruct D as [Dk [Dx [Dfor Dr]]].
+    destruct (tk_first x0 Dx) as [t0 [l0 [E0 S0]]].
+    pose proof (first_not_for x0 Dx Dfor t0 l0 E0) as Hnf.
+    cbn [tk]. destruct k0; try contradiction.
+    + rewrite norm_l, norm_r. cbn [app]. apply pexpr_lcurly_str.
+    + rewrite norm_l, norm_r. rewrite E0. cbn [app]. apply pexpr_lcurly_sym. exact Hnf.
 Qed.
 
 Lemma parse_claim : forall v, E v /\ PL v.
@@ -881,7 +1296,9 @@ Proof.
       cbn [tk]. rewrite <- app_comm_cons. rewrite pexpr_lsquare. rewrite <- app_assoc.
       cbn [app]. rewrite (Harr f acc rest e i k [] D) by (simpl in Hf; lia). reflexivity. }
     split; [exact Ea|apply Hdot; [exact I|exact Ea]].
-  - intros kvs. split; [intros []|intros []].
+  - intros kvs F.
+    assert (E (VHash kvs)) as Eh by (apply E_hash; eapply Forall_impl; [|exact F]; intros kv [_ [H _]]; exact H).
+    split; [exact Eh|apply Hdot; [exact I|exact Eh]].
 Qed.
 
 End Parse.
@@ -889,7 +1306,7 @@ End Parse.
 (* ======== the whole reader on a printed value ======== *)
 
 Lemma to_sexp_not_end : forall is_print v, dat is_print false v -> is_send (to_sexp v) = false.
-Proof. intros ip v D. destruct v; try reflexivity; try (destruct c; reflexivity); destruct D. Qed.
+Proof. intros ip v D. destruct v; try reflexivity; try (destruct c; reflexivity); try (destruct kvs; reflexivity); destruct D. Qed.
 
 Theorem read_print_data : forall is_print v fuel, dat is_print false v -> (vsize v + 3 <= fuel)%nat ->
   observe (parse_whole true false fuel (print is_print v)) = (StDone, [to_sexp v]).
